@@ -105,6 +105,10 @@ def run_extra(ctx):
     # ---- leg B
     rng = random.Random(ctx.seed)
     tb = vlib.tlc_behaviours(ctx, "ServerConn", "ServerConn_gen.cfg", simulate=16000 if T else 4000, depth=60)
+    # a second, narrower generator (one connection, three queries, shorter schedules): single causes decide more often
+    g1 = open(vlib.VERIF + "/spec/ServerConn_gen.cfg").read().replace("Conns = {1, 2}", "Conns = {1}").replace(
+        "Ids = {1, 2, 3, 4}", "Ids = {1, 2, 3}").replace("GenLen = 14", "GenLen = 10")
+    tb += vlib.tlc_behaviours(ctx, "ServerConn", "ServerConn_gen1.cfg", cfg_text=g1, name="sc-gen1", simulate=6000 if T else 2000, depth=50)
     ub = vlib.tlc_behaviours(ctx, "ServerConn", "ServerConn_genudp.cfg", simulate=5000 if T else 1000, depth=50)
 
     def stalled_reply(b):
